@@ -11,7 +11,7 @@ REGISTRY = {
     "C08": check_threads,
     "C09": check_pool,
     "C10": check_combo,
-    "C11": check_establish,
+    "C11": check_combo,
     "C12": check_h2,
     "C13": check_h2,
     "C14": check_combo,
